@@ -122,17 +122,14 @@ func (b aliasBase) String() string {
 }
 
 type aliasBounds struct {
-	priors    []int
-	patterns  []int
-	vias      []uint8
-	shapes    []uint8
-	lates     []bool
-	jits      []uint8
-	maxAB     int // steps of D1 / D2 when S does not step
-	maxABwS   int // steps of D1 / D2 when S steps too
-	maxS      int
-	maxABExcl int // steps of D1 / D2 in the sequences that use the budget-excluded kind (0: none)
-	farMerge  bool
+	priors   []int
+	patterns []int
+	vias     []uint8
+	shapes   []uint8
+	lates    []bool
+	jits     []uint8
+	families []seqFamily
+	farMerge bool
 	// quick: "D2 taken right before its first step" only for the pairs in which D2 is derived from D1 (there it inherits D1's steps)
 	lateOnlyChained bool
 }
@@ -146,21 +143,22 @@ func aliasBoundsFor(thorough bool) aliasBounds {
 		return l
 	}
 	b := aliasBounds{
-		priors: all(9), patterns: []int{1, 2, 3},
+		priors: all(9), patterns: []int{1, 3},
 		vias:   []uint8{viaDirect, viaFork, viaForkMid, viaMerged},
 		shapes: []uint8{shCC, shFC, shCofC, shFF, shCF, shFofF},
 		lates:  []bool{false, true}, jits: []uint8{jitMax},
-		maxAB: 2, maxABwS: 1, maxS: 1,
-	}
-	if !thorough {
-		b.patterns = []int{1, 3}
-		b.lateOnlyChained = true
+		families:        []seqFamily{{s: 0, maxAB: 2, nk: 3}, {s: 1, maxAB: 1, nk: 3}},
+		lateOnlyChained: true,
 	}
 	if thorough {
-		b.priors = append(all(12), 15, 16, 17)
-		b.jits = []uint8{jitMin, jitMax}
-		b.maxAB, b.maxABwS, b.maxABExcl = 3, 2, 2
+		b.priors = append(all(12), 15, 16, 17) // 16 -> 17: the next growth of a directly used back-offer's list
+		b.patterns = []int{1, 2, 3}
+		b.lateOnlyChained = false
 		b.farMerge = true
+		b.families = append(b.families,
+			seqFamily{s: 0, maxAB: 3, nk: 2}, // longer runs of each derived back-offer: the old kind and one new kind
+			seqFamily{s: 1, maxAB: 2, nk: 2}, // the source steps in between
+			seqFamily{s: 0, maxAB: 2, nk: 4, needExcl: true})
 	}
 	return b
 }
@@ -191,9 +189,25 @@ func aliasBases(ab aliasBounds) (out []aliasBase) {
 	return
 }
 
-// aliasSeqs lists the step sequences, shortest first.
+// seqFamily is one block of step sequences: every interleaving of a steps of D1, b steps of D2 (a, b = 1..maxAB)
+// and exactly s steps of S, every step on every one of the first nk kinds of the step alphabet.
+type seqFamily struct {
+	s, maxAB, nk int
+	needExcl     bool // only the sequences that use the budget-excluded kind (the others are in another family)
+}
+
+func (f seqFamily) String() string {
+	x := ""
+	if f.needExcl {
+		x = " (sequences with the excluded kind)"
+	}
+	return fmt.Sprintf("S:%d D1,D2:1..%d kinds:%d%s", f.s, f.maxAB, f.nk, x)
+}
+
+// aliasSeqs lists the step sequences of all families without repetition, shortest first.
 func aliasSeqs(ab aliasBounds) (out [][]aliasStep) {
 	var cur []aliasStep
+	seen := map[string]bool{}
 	var rec func(left [3]int, nk int, needExcl bool)
 	rec = func(left [3]int, nk int, needExcl bool) {
 		if left[0]+left[1]+left[2] == 0 {
@@ -206,6 +220,14 @@ func aliasSeqs(ab aliasBounds) (out [][]aliasStep) {
 					return
 				}
 			}
+			key := make([]byte, 0, len(cur))
+			for _, s := range cur {
+				key = append(key, s.Actor*8+s.Kind)
+			}
+			if seen[string(key)] {
+				return
+			}
+			seen[string(key)] = true
 			out = append(out, append([]aliasStep(nil), cur...))
 			return
 		}
@@ -222,20 +244,11 @@ func aliasSeqs(ab aliasBounds) (out [][]aliasStep) {
 			left[a]++
 		}
 	}
-	for c := 0; c <= ab.maxS; c++ {
-		m := ab.maxAB
-		if c > 0 {
-			m = ab.maxABwS
-		}
-		for a := 1; a <= m; a++ {
-			for b := 1; b <= m; b++ {
-				rec([3]int{c, a, b}, 3, false)
+	for _, f := range ab.families {
+		for a := 1; a <= f.maxAB; a++ {
+			for b := 1; b <= f.maxAB; b++ {
+				rec([3]int{f.s, a, b}, f.nk, f.needExcl)
 			}
-		}
-	}
-	for a := 1; a <= ab.maxABExcl; a++ {
-		for b := 1; b <= ab.maxABExcl; b++ {
-			rec([3]int{0, a, b}, 4, true)
 		}
 	}
 	sort.SliceStable(out, func(i, j int) bool { return len(out[i]) < len(out[j]) })
@@ -341,7 +354,7 @@ type aliasExec struct {
 	probes    int64
 	probesDef int64 // refused calls for which the reference names a kind (not "the caller's error")
 	onState   func(h uint64, nontrivial bool)
-	outc      map[string]int64
+	outc      map[outKey]int64
 }
 
 func (x *aliasExec) add(key, what string) {
@@ -500,9 +513,9 @@ func (x *aliasExec) run() {
 				fs = append(fs, aliasExtra(o, aliveBefore, pre, post, ref)...)
 			}
 		}
-		label := opNames[o.Code] + " " + exp.branch
+		ok := outKey{code: o.Code, branch: exp.branch}
 		if isBackoffOp(o.Code) {
-			label += " -> " + classOrKind(res.class)
+			ok.class = classOrKind(res.class)
 			if exp.exhausted {
 				x.probes++
 				if len(exp.classes) > 0 && exp.classes[0] != "passed" {
@@ -510,7 +523,7 @@ func (x *aliasExec) run() {
 				}
 			}
 		}
-		x.outc["alias "+label]++
+		x.outc[ok]++
 		if x.trace != nil {
 			tag := ""
 			if probe {
@@ -571,6 +584,9 @@ func (x *aliasExec) run() {
 		refusedStep := -1
 		if isBackoffOp(o.Code) && lastExp.exhausted {
 			refusedStep = int(o.Slot) // this step was itself a refused call on that back-offer: no second one
+			if i < len(x.ops)-1 {
+				continue // a refused call changed nothing (checked): the probes made after the operation before it still stand
+			}
 		}
 		// probes: every live back-offer that is exhausted according to the reference must refuse a call,
 		// report the error of ITS longest sleeper and change nothing
@@ -696,9 +712,14 @@ func runAlias(thorough bool) aliasStats {
 	// allocation heavy with a tiny live heap: without a ballast the collector runs all the time and serialises the workers
 	ballast := make([]byte, 512<<20)
 	defer runtime.KeepAlive(ballast)
+	dry := os.Getenv("VERIF_C20_ALIAS_DRY") != "" // development aid: count the programs only
+	if dry {
+		run.Incomplete("VERIF_C20_ALIAS_DRY: the programs of part alias were only counted")
+	}
 	type wres struct {
+		progOps                                               int64
 		viols                                                 map[string]*aliasViol
-		outc                                                  map[string]int64
+		outc                                                  map[outKey]int64
 		programs, steps, states, nontrivial, probes, probeDef int64
 	}
 	results := make([]wres, workers)
@@ -711,7 +732,7 @@ func runAlias(thorough bool) aliasStats {
 			e := theRouter.attach()
 			defer theRouter.detach()
 			wr := &results[wi]
-			wr.viols, wr.outc = map[string]*aliasViol{}, map[string]int64{}
+			wr.viols, wr.outc = map[string]*aliasViol{}, map[outKey]int64{}
 			for {
 				ui := int(next.Add(1)) - 1
 				if ui >= len(bases) {
@@ -743,8 +764,11 @@ func runAlias(thorough bool) aliasStats {
 								}
 							}
 						}
-						x.run()
+						if !dry {
+							x.run()
+						}
 						wr.programs++
+						wr.progOps += int64(len(ops))
 						wr.steps += x.executed
 						wr.probes += x.probes
 						wr.probeDef += x.probesDef
@@ -776,9 +800,11 @@ func runAlias(thorough bool) aliasStats {
 	}
 	wg.Wait()
 	viols := map[string]*aliasViol{}
+	var progOps int64
 	for wi := range results {
 		wr := &results[wi]
 		st.programs += wr.programs
+		progOps += wr.progOps
 		st.steps += wr.steps
 		st.states += wr.states
 		st.nontrivial += wr.nontrivial
@@ -786,7 +812,7 @@ func runAlias(thorough bool) aliasStats {
 		st.probesDef += wr.probeDef
 		outcomeMu.Lock()
 		for k, n := range wr.outc {
-			outcomes[k] += n
+			outcomes["alias "+k.label()] += n
 		}
 		outcomeMu.Unlock()
 		for k, v := range wr.viols {
@@ -813,6 +839,9 @@ func runAlias(thorough bool) aliasStats {
 			run.Violation(k, v.what, v.art)
 		}
 	}
+	if dry {
+		fmt.Fprintf(os.Stderr, "c20: alias (dry) program operations without probes=%d\n", progOps)
+	}
 	fmt.Fprintf(os.Stderr, "c20: alias bases=%d sequences=%d programs=%d operations=%d states=%d refused-probes=%d violations=%d t=%.0fs\n",
 		st.bases, st.seqs, st.programs, st.steps, st.states, st.probes, len(keys), time.Since(t0).Seconds())
 	return st
@@ -837,7 +866,7 @@ func replayAlias(raw json.RawMessage, path string) {
 	e := theRouter.attach()
 	defer theRouter.detach()
 	fmt.Printf("program: %s, budget %dms (a probe = a call the reference expects to be refused)\n", r.Base, r.Budget)
-	x := &aliasExec{e: e, shape: r.Shape, budget: r.Budget, ops: ops, outc: map[string]int64{}, trace: func(s string) { fmt.Println(s) }}
+	x := &aliasExec{e: e, shape: r.Shape, budget: r.Budget, ops: ops, outc: map[outKey]int64{}, trace: func(s string) { fmt.Println(s) }}
 	x.run()
 	if len(x.fs) > 0 {
 		fmt.Printf("VIOLATION property=C20 replay=%s\n", path)
